@@ -766,7 +766,7 @@ func (f *typedStructCopier) Call(s *slip.Scope, args slip.List, depth int) slip.
 		copy(elements, vec.AsList())
 		return slip.NewVector(vec.Length(), vec.ElementType(), nil, elements, vec.Adjustable())
 	} else {
-		list, ok := args[0].(slip.List)
+		list, ok := listArg(args[0])
 		if !ok {
 			slip.TypePanic(s, depth, "list", args[0], "list")
 		}
@@ -852,7 +852,7 @@ type listStructAccessor struct {
 
 func (f *listStructAccessor) Call(s *slip.Scope, args slip.List, depth int) slip.Object {
 	slip.CheckArgCount(s, depth, f, args, 1, 1)
-	list, ok := args[0].(slip.List)
+	list, ok := listArg(args[0])
 	if !ok {
 		slip.TypePanic(s, depth, "list", args[0], "list")
 	}
